@@ -1,0 +1,264 @@
+// Copyright ©2026 The Gonum Authors. All rights reserved.
+// Use of this source code is governed by a BSD-style
+// license that can be found in the LICENSE file.
+
+//go:build verif
+
+package iterator
+
+// Machine-checked contracts for the slice-backed iterators (verification
+// hook, build tag verif; this file contains comments only). See /verif/DESIGN.md.
+//
+// An ordered iterator is a cursor idx into a slice of items: idx == -1 is the
+// initial state, 0 <= idx < len(items) means items[idx] is the current
+// element (items[0..idx] have been returned, items[idx+1..] remain), and
+// idx == len(items) is the exhausted state. The representation invariant
+// -1 <= idx <= len(items) is established by the constructor and preserved by
+// every method, hence holds after every call history. The method contracts
+// give the exact transition of (idx, items), so that every history enumerates
+// each element exactly once, Len is the number of elements not yet returned,
+// the item method returns nil exactly when there is no current element, the
+// slice method returns exactly the elements not yet returned (as a view of the
+// backing slice) and exhausts the iterator, and Reset restores the initial
+// state.
+
+//@ spec onInv(n *OrderedNodes) bool = n != nil && -1 <= n.idx && n.idx <= len(n.nodes)
+
+//@ func NewOrderedNodes props: C12
+//@ ensures onInv(result) && fresh(result)
+//@ ensures result.idx == -1 && sameSlice(result.nodes, nodes)
+
+//@ func OrderedNodes.Len props: C12
+//@ requires onInv(n)
+//@ ensures result == max(0, len(n.nodes) - (n.idx+1))
+
+//@ func OrderedNodes.Next props: C12
+//@ requires onInv(n)
+//@ modifies n
+//@ ensures onInv(n) && sameSlice(n.nodes, old(n.nodes))
+//@ ensures result == (old(n.idx)+1 < len(n.nodes))
+//@ ensures result ==> n.idx == old(n.idx)+1
+//@ ensures !result ==> n.idx == len(n.nodes)
+
+//@ func OrderedNodes.Node props: C12
+//@ requires onInv(n)
+//@ ensures 0 <= n.idx && n.idx < len(n.nodes) ==> result == n.nodes[n.idx]
+//@ ensures !(0 <= n.idx && n.idx < len(n.nodes)) ==> result == nil
+
+//@ func OrderedNodes.NodeSlice props: C12
+//@ requires onInv(n)
+//@ modifies n
+//@ ensures onInv(n) && sameSlice(n.nodes, old(n.nodes)) && n.idx == len(n.nodes)
+//@ ensures len(result) == max(0, len(n.nodes) - (old(n.idx)+1))
+//@ ensures forall(k, 0, len(result), result[k] == n.nodes[old(n.idx)+1+k])
+//@ ensures len(result) > 0 ==> result.rid == n.nodes.rid && result.off == n.nodes.off + old(n.idx)+1
+
+//@ func OrderedNodes.Reset props: C12
+//@ requires onInv(n)
+//@ modifies n
+//@ ensures onInv(n) && n.idx == -1 && sameSlice(n.nodes, old(n.nodes))
+
+// (was a finding: repaired by a fix: commit, block enabled) (OrderedEdges, OrderedWeightedEdges, OrderedLines,
+// OrderedWeightedLines): Len and the slice method do not have the effect their
+// documentation states ("the remaining number of edges to be iterated over",
+// "all the remaining edges"). After the first successful Next (idx == 0) Len
+// still returns len(items) and the slice method returns items[0:], which
+// contains the element already returned; for every later position Len returns
+// len(items)-idx, one more than the number of elements not yet returned. The
+// clauses below are the ones OrderedNodes satisfies; for these four types the
+// verifier answers sat (post of Len at the `idx <= 0` and final returns, all
+// three value clauses of the slice method), so the two blocks of each type are
+// left out (kept as plain comments) instead of being weakened. Next, the item
+// method and Reset are under contract.
+
+//@ spec oeInv(e *OrderedEdges) bool = e != nil && -1 <= e.idx && e.idx <= len(e.edges)
+
+//@ func NewOrderedEdges props: C12
+//@ ensures oeInv(result) && fresh(result)
+//@ ensures result.idx == -1 && sameSlice(result.edges, edges)
+
+//@ func OrderedEdges.Next props: C12
+//@ requires oeInv(e)
+//@ modifies e
+//@ ensures oeInv(e) && sameSlice(e.edges, old(e.edges))
+//@ ensures result == (old(e.idx)+1 < len(e.edges))
+//@ ensures result ==> e.idx == old(e.idx)+1
+//@ ensures !result ==> e.idx == len(e.edges)
+
+//@ func OrderedEdges.Edge props: C12
+//@ requires oeInv(e)
+//@ ensures 0 <= e.idx && e.idx < len(e.edges) ==> result == e.edges[e.idx]
+//@ ensures !(0 <= e.idx && e.idx < len(e.edges)) ==> result == nil
+
+//@ func OrderedEdges.Reset props: C12
+//@ requires oeInv(e)
+//@ modifies e
+//@ ensures oeInv(e) && e.idx == -1 && sameSlice(e.edges, old(e.edges))
+
+// (was a finding: repaired by a fix: commit, block enabled) OrderedEdges.Len (sat: returns len(e.edges) for idx == 0 and len(e.edges)-idx for idx > 0)
+
+//@ func OrderedEdges.Len props: C12
+//@ requires oeInv(e)
+//@ ensures result == max(0, len(e.edges) - (e.idx+1))
+// (was a finding: repaired by a fix: commit, block enabled) OrderedEdges.EdgeSlice (sat: returns e.edges[idx:] instead of e.edges[idx+1:] for idx >= 0)
+
+//@ func OrderedEdges.EdgeSlice props: C12
+//@ requires oeInv(e)
+//@ modifies e
+//@ ensures oeInv(e) && sameSlice(e.edges, old(e.edges)) && e.idx == len(e.edges)
+//@ ensures len(result) == max(0, len(e.edges) - (old(e.idx)+1))
+//@ ensures forall(k, 0, len(result), result[k] == e.edges[old(e.idx)+1+k])
+//@ ensures len(result) > 0 ==> result.rid == e.edges.rid && result.off == e.edges.off + old(e.idx)+1
+
+//@ spec oweInv(e *OrderedWeightedEdges) bool = e != nil && -1 <= e.idx && e.idx <= len(e.edges)
+
+//@ func NewOrderedWeightedEdges props: C12
+//@ ensures oweInv(result) && fresh(result)
+//@ ensures result.idx == -1 && sameSlice(result.edges, edges)
+
+//@ func OrderedWeightedEdges.Next props: C12
+//@ requires oweInv(e)
+//@ modifies e
+//@ ensures oweInv(e) && sameSlice(e.edges, old(e.edges))
+//@ ensures result == (old(e.idx)+1 < len(e.edges))
+//@ ensures result ==> e.idx == old(e.idx)+1
+//@ ensures !result ==> e.idx == len(e.edges)
+
+//@ func OrderedWeightedEdges.WeightedEdge props: C12
+//@ requires oweInv(e)
+//@ ensures 0 <= e.idx && e.idx < len(e.edges) ==> result == e.edges[e.idx]
+//@ ensures !(0 <= e.idx && e.idx < len(e.edges)) ==> result == nil
+
+//@ func OrderedWeightedEdges.Reset props: C12
+//@ requires oweInv(e)
+//@ modifies e
+//@ ensures oweInv(e) && e.idx == -1 && sameSlice(e.edges, old(e.edges))
+
+// (was a finding: repaired by a fix: commit, block enabled) OrderedWeightedEdges.Len (sat: returns len(e.edges) for idx == 0 and len(e.edges)-idx for idx > 0)
+
+//@ func OrderedWeightedEdges.Len props: C12
+//@ requires oweInv(e)
+//@ ensures result == max(0, len(e.edges) - (e.idx+1))
+// (was a finding: repaired by a fix: commit, block enabled) OrderedWeightedEdges.WeightedEdgeSlice (sat: returns e.edges[idx:] instead of e.edges[idx+1:] for idx >= 0)
+
+//@ func OrderedWeightedEdges.WeightedEdgeSlice props: C12
+//@ requires oweInv(e)
+//@ modifies e
+//@ ensures oweInv(e) && sameSlice(e.edges, old(e.edges)) && e.idx == len(e.edges)
+//@ ensures len(result) == max(0, len(e.edges) - (old(e.idx)+1))
+//@ ensures forall(k, 0, len(result), result[k] == e.edges[old(e.idx)+1+k])
+//@ ensures len(result) > 0 ==> result.rid == e.edges.rid && result.off == e.edges.off + old(e.idx)+1
+
+//@ spec olInv(e *OrderedLines) bool = e != nil && -1 <= e.idx && e.idx <= len(e.lines)
+
+//@ func NewOrderedLines props: C12
+//@ ensures olInv(result) && fresh(result)
+//@ ensures result.idx == -1 && sameSlice(result.lines, lines)
+
+//@ func OrderedLines.Next props: C12
+//@ requires olInv(e)
+//@ modifies e
+//@ ensures olInv(e) && sameSlice(e.lines, old(e.lines))
+//@ ensures result == (old(e.idx)+1 < len(e.lines))
+//@ ensures result ==> e.idx == old(e.idx)+1
+//@ ensures !result ==> e.idx == len(e.lines)
+
+//@ func OrderedLines.Line props: C12
+//@ requires olInv(e)
+//@ ensures 0 <= e.idx && e.idx < len(e.lines) ==> result == e.lines[e.idx]
+//@ ensures !(0 <= e.idx && e.idx < len(e.lines)) ==> result == nil
+
+//@ func OrderedLines.Reset props: C12
+//@ requires olInv(e)
+//@ modifies e
+//@ ensures olInv(e) && e.idx == -1 && sameSlice(e.lines, old(e.lines))
+
+// (was a finding: repaired by a fix: commit, block enabled) OrderedLines.Len (sat: returns len(e.lines) for idx == 0 and len(e.lines)-idx for idx > 0)
+
+//@ func OrderedLines.Len props: C12
+//@ requires olInv(e)
+//@ ensures result == max(0, len(e.lines) - (e.idx+1))
+// (was a finding: repaired by a fix: commit, block enabled) OrderedLines.LineSlice (sat: returns e.lines[idx:] instead of e.lines[idx+1:] for idx >= 0)
+
+//@ func OrderedLines.LineSlice props: C12
+//@ requires olInv(e)
+//@ modifies e
+//@ ensures olInv(e) && sameSlice(e.lines, old(e.lines)) && e.idx == len(e.lines)
+//@ ensures len(result) == max(0, len(e.lines) - (old(e.idx)+1))
+//@ ensures forall(k, 0, len(result), result[k] == e.lines[old(e.idx)+1+k])
+//@ ensures len(result) > 0 ==> result.rid == e.lines.rid && result.off == e.lines.off + old(e.idx)+1
+
+//@ spec owlInv(e *OrderedWeightedLines) bool = e != nil && -1 <= e.idx && e.idx <= len(e.lines)
+
+//@ func NewOrderedWeightedLines props: C12
+//@ ensures owlInv(result) && fresh(result)
+//@ ensures result.idx == -1 && sameSlice(result.lines, lines)
+
+//@ func OrderedWeightedLines.Next props: C12
+//@ requires owlInv(e)
+//@ modifies e
+//@ ensures owlInv(e) && sameSlice(e.lines, old(e.lines))
+//@ ensures result == (old(e.idx)+1 < len(e.lines))
+//@ ensures result ==> e.idx == old(e.idx)+1
+//@ ensures !result ==> e.idx == len(e.lines)
+
+//@ func OrderedWeightedLines.WeightedLine props: C12
+//@ requires owlInv(e)
+//@ ensures 0 <= e.idx && e.idx < len(e.lines) ==> result == e.lines[e.idx]
+//@ ensures !(0 <= e.idx && e.idx < len(e.lines)) ==> result == nil
+
+//@ func OrderedWeightedLines.Reset props: C12
+//@ requires owlInv(e)
+//@ modifies e
+//@ ensures owlInv(e) && e.idx == -1 && sameSlice(e.lines, old(e.lines))
+
+// (was a finding: repaired by a fix: commit, block enabled) OrderedWeightedLines.Len (sat: returns len(e.lines) for idx == 0 and len(e.lines)-idx for idx > 0)
+
+//@ func OrderedWeightedLines.Len props: C12
+//@ requires owlInv(e)
+//@ ensures result == max(0, len(e.lines) - (e.idx+1))
+// (was a finding: repaired by a fix: commit, block enabled) OrderedWeightedLines.WeightedLineSlice (sat: returns e.lines[idx:] instead of e.lines[idx+1:] for idx >= 0)
+
+//@ func OrderedWeightedLines.WeightedLineSlice props: C12
+//@ requires owlInv(e)
+//@ modifies e
+//@ ensures owlInv(e) && sameSlice(e.lines, old(e.lines)) && e.idx == len(e.lines)
+//@ ensures len(result) == max(0, len(e.lines) - (old(e.idx)+1))
+//@ ensures forall(k, 0, len(result), result[k] == e.lines[old(e.idx)+1+k])
+//@ ensures len(result) > 0 ==> result.rid == e.lines.rid && result.off == e.lines.off + old(e.idx)+1
+
+// ImplicitNodes enumerates the IDs of [beg, end): curr == beg-1 is the initial
+// state, beg <= curr < end means curr is the current ID, curr == end is the
+// exhausted state. Node and NodeSlice call the node constructor closure and are
+// outside the verifier's subset ("call through function value
+// n.newNode(n.curr)"); they are not under contract.
+//
+// (was a finding: repaired by a fix: commit, block enabled) (by inspection, reproduced): ImplicitNodes.Node tests
+// n.Len() == -1, which never holds, so in the exhausted state (curr == end,
+// Next has returned false) it returns newNode(end), a non-nil node outside
+// [beg, end), where graph.Iterator documents a nil item.
+
+//@ spec inInv(n *ImplicitNodes) bool = n != nil && n.beg <= n.end && n.beg-1 <= n.curr && n.curr <= n.end
+
+//@ func NewImplicitNodes props: C12
+//@ valid beg <= end
+//@ panics iff !valid, before-writes
+//@ ensures inInv(result) && fresh(result)
+//@ ensures result.beg == beg && result.end == end && result.curr == beg-1
+
+//@ func ImplicitNodes.Len props: C12
+//@ requires inInv(n)
+//@ ensures result == max(0, n.end - (n.curr+1))
+
+//@ func ImplicitNodes.Next props: C12
+//@ requires inInv(n)
+//@ modifies n
+//@ ensures inInv(n) && n.beg == old(n.beg) && n.end == old(n.end)
+//@ ensures result == (old(n.curr)+1 < n.end)
+//@ ensures result ==> n.curr == old(n.curr)+1
+//@ ensures !result ==> n.curr == n.end
+
+//@ func ImplicitNodes.Reset props: C12
+//@ requires inInv(n)
+//@ modifies n
+//@ ensures inInv(n) && n.curr == n.beg-1 && n.beg == old(n.beg) && n.end == old(n.end)
